@@ -215,7 +215,28 @@ def gen_case(rng, shape=None):
     elif shape == "pair":
         add_phase_fault()
         add_phase_fault()
+    # persist marks (legal, no fault by themselves), combined below with missing / changed / tampered neighbours
+    persist = []
+    if rng.random() < 0.35:
+        cands = [t for t in spec["tasks"] if t["prods"] and not t.get("gen")]
+        for t in rng.sample(cands, min(len(cands), rng.randint(1, 2))):
+            t["marks"] = sorted(set(t.get("marks", [])) | {"persist"})
+            persist.append(t)
     steps.append(["build", cfg, kw_extra])
+    if persist and rng.random() < 0.8:
+        produced = {p for t in spec["tasks"] for p in t["prods"]}
+        for t in persist:
+            ins = [d for d in t["deps"] if d not in produced]
+            k = rng.random()
+            if k < 0.45 and ins:
+                steps.append(["delete", rng.choice(ins)])                      # a dependency of the persist task goes missing
+            elif k < 0.65 and ins:
+                steps.append(["write", rng.choice(ins), rng.randint(100, 999)])  # a dependency changes: PERSISTENCE
+            elif k < 0.85:
+                steps.append(["write", rng.choice(t["prods"]), rng.randint(1000, 9999)])   # a product was edited by hand: PERSISTENCE
+            else:
+                steps.append(["delete", rng.choice(t["prods"])])               # a product is gone: the task runs again
+        steps.append(["build", dict(cfg), kw_extra])
     if rng.random() < 0.5:
         steps.append(["build", dict(cfg), kw_extra])
     return {"tag": shape, "spec": spec, "steps": steps, "faults": faults}
@@ -267,6 +288,10 @@ def run_case(server, case):
         for step in case["steps"]:
             if step[0] == "delete":
                 project.node_path(root, step[1]).unlink(missing_ok=True)
+                recs.append({"step": step})
+                continue
+            if step[0] == "write":
+                project.write_file(project.node_path(root, step[1]), str(step[2]), clock)
                 recs.append({"step": step})
                 continue
             cfg, kw_extra = step[1], step[2]
@@ -390,6 +415,16 @@ def oracle(case, recs):
         for t in deleted:
             if t in out and out[t] != "FAIL":
                 bad.append(("fail_iff", f"task {t} deleted its own dependency (it is missing afterwards) but is reported {out[t]}", None))
+        # a dependency that no task produces and that was missing before the build is missing at the task's setup:
+        # the task fails there, its function is not invoked
+        producedn = {p for u in spec["tasks"] for p in u["prods"]}
+        for t, spec_t in byid.items():
+            gone_before = [d for d in spec_t["deps"] if d not in producedn and pre.get(d) is None]
+            if gone_before and t in starts:
+                bad.append(("fail_iff", f"dependency {gone_before} of task {t} was missing before the build, yet its function was invoked "
+                                        f"(outcome {out.get(t)}; log {log})", None))
+            if gone_before and out.get(t) in ("SUCCESS", "PERSISTENCE", "SKIP_UNCHANGED"):
+                bad.append(("fail_iff", f"dependency {gone_before} of task {t} is missing but the task is reported {out.get(t)}", None))
         # dry-run: nothing runs
         if cfg.get("dry") and (starts or any(e[0] in ("L", "V") for e in log)):
             bad.append(("not_run", f"dry-run executed something: {log}", None))
@@ -431,6 +466,9 @@ def replay_in_model(drv, case, recs):
         step = rec["step"]
         if step[0] == "delete":
             drv.ask(f"engine.fs set= del={step[1]}")
+            continue
+        if step[0] == "write":
+            drv.ask(f"engine.fs set={step[1]}:{step[2]} del=")
             continue
         obs, cfg = rec["obs"], dict(rec["cfg"])
         conf, ph, imp = model_faults(case, step)
@@ -508,7 +546,7 @@ def run_cases(ctx, cs):
         builds = [r for r in recs if r["step"][0] == "build"]
         fired = any(r["obs"].get("exit") not in (0, None) or r["obs"].get("raised") for r in builds)
         sample = {"faults": case["faults"], "cfg": builds[0]["cfg"] if builds else None,
-                  "tasks": [{k: t[k] for k in ("id", "deps", "prods", "beh", "setup_fault") if t.get(k)} for t in case["spec"]["tasks"]],
+                  "tasks": [{k: t[k] for k in ("id", "deps", "prods", "beh", "setup_fault", "marks") if t.get(k)} for t in case["spec"]["tasks"]],
                   "first_build": {k: builds[0]["obs"].get(k) for k in ("raised", "exit", "reports")} if builds else None}
         ctx.case([case["spec"], case["steps"]], fired, sample)
         ctx.dist[f"shape={case['tag'].split('-')[0]}"] += 1
